@@ -1,8 +1,8 @@
 (* C13 — Flux limiters compute the published formulas, are total and within TVD bounds.
    The definitions FL_dispatch / FL_dens_dispatch / fsign are GENERATED from /repo on every run
    (Gen/Limiters.v); the closed forms sp_table are hand-written in Spec/LimiterSpec.v. *)
-From Coq Require Import Reals String List.
-From PFV Require Import OField KOps Limiters LimiterSpec LimiterThy.
+From Coq Require Import Reals String List Floats.
+From PFV Require Import OField KOps Limiters LimiterSpec LimiterThy F64Ops FloatThy FloatLimThy.
 Local Open Scope R_scope.
 
 (* every named limiter evaluates the published closed form, for every real r *)
@@ -59,6 +59,38 @@ Theorem C13_fsign_ratio_bounded : forall eps1 a x, 0 < eps1 -> Rabs (a / fsign R
 Proof. exact fsign_ratio_bounded. Qed.
 Print Assumptions C13_fsign_ratio_bounded.
 
+(* ---- binary64 level: the regenerated definitions evaluated with Coq's primitive floats (FOps), i.e. the IEEE 754 arithmetic numpy
+   performs; `fin k f` = f is a finite float and |f| <= 2^k (Theory/FloatThy.v, on Flocq's specification of primitive floats).
+   The full statement "every named limiter returns a finite value for every finite r" is FALSE in binary64 (refuted below: r*r
+   overflows); proved is the part below.  Not proved: CHARM, HCUS, HQUICK, ospre (their denominators need error bounds, not only
+   monotonicity of rounding) -- hence _partial. *)
+Theorem C13_float_finite_partial : forall name eps r, In name float_safe_names -> fin 500 r ->
+  fin 1002 (FL_dispatch FOps name eps r).
+Proof. exact float_safe_dispatch. Qed.
+Print Assumptions C13_float_finite_partial.
+Theorem C13_float_unknown_name_finite : forall name eps r, ~ In name FL_names -> fin 500 r ->
+  fin 1002 (FL_dispatch FOps name eps r).
+Proof. exact float_unknown_name. Qed.
+Print Assumptions C13_float_unknown_name_finite.
+Theorem C13_float_fin_is_finite : forall k f, fin k f -> PrimFloat.is_finite f = true.
+Proof. exact fin_finite. Qed.
+Print Assumptions C13_float_fin_is_finite.
+(* the guard of the gradient ratios never overflows *)
+Theorem C13_float_fsign_finite : forall eps1 x, fin 0 eps1 -> fin 1000 x -> fin 1010 (fsign FOps eps1 x).
+Proof. exact float_fsign. Qed.
+Print Assumptions C13_float_fsign_finite.
+(* refutation of the full statement at binary64: finite r = 2^520 gives NaN (CHARM, ospre, VanAlbada1), r = 2^1023 gives NaN
+   (VanAlbada2) or an infinity (HCUS, HQUICK, VanLeer) -- known finding c13:float_overflow *)
+Theorem C13_float_overflow_refuted :
+  PrimFloat.is_finite big_r = true /\
+  Forall (fun name => PrimFloat.is_nan (FL_dispatch FOps name (eps_default FOps) big_r) = true)
+         ("CHARM" :: "ospre" :: "VanAlbada1" :: nil)%string /\
+  PrimFloat.is_nan (FL_dispatch FOps "VanAlbada2" (eps_default FOps) 0x1p+1023%float) = true /\
+  Forall (fun name => PrimFloat.is_finite (FL_dispatch FOps name (eps_default FOps) 0x1p+1023%float) = false)
+         ("HCUS" :: "HQUICK" :: "VanLeer" :: nil)%string.
+Proof. exact float_overflow_witness. Qed.
+Print Assumptions C13_float_overflow_refuted.
+
 (* non-vacuity: the hypotheses are met by the defaults the code uses *)
 Example C13_defaults_positive : 0 < eps_default ROps /\ 0 < eps1_default ROps.
 Proof.
@@ -66,3 +98,5 @@ Proof.
 Qed.
 Example C13_lookup_nonvacuous : lookup "Koren"%string sp_table = Some sp_Koren.
 Proof. reflexivity. Qed.
+Example C13_float_nonvacuous : fin 500 1.5%float /\ In "Koren"%string float_safe_names.
+Proof. split; [|simpl; tauto]. eapply fin_weaken; [fin_tac|vm_compute; discriminate]. Qed.
